@@ -10,6 +10,16 @@ CLAIMED = {
          "All reachable cache states for the stated alphabet (2 keys, 8 value lengths across the 16-bit boundary, 3 limits, capacities incl. 0, <=4 scopes) are enumerated to a fixpoint on the implementation itself; six invariants are evaluated on every transition, so within the alphabet the result holds for operation histories of any length.",
          "Trusted: the harness's deep copy of cache.Cache's exported fields is a faithful clone (the only unexported field, invalid, is never read by the operations explored). Values/keys outside the alphabet are not covered.",
          "DESIGN.md §4 C09"),
+ "C14": ("exploration",
+         "exhaustive input-space enumeration (all 2^32 integers, all symbol lengths 1..255, all instruction sequences <=3 over a boundary pool) with round-trip and cross-encoder comparison",
+         "The argument domains the statement names are enumerated completely (thorough: every uint32; quick: boundary windows) on the real encoders/decoders; every case is compared against an independent encoder and strict decoder written for the harness, so a disagreement between the VM decoder, the disassembler, vm.NewLine and the assembler's integer/string encoders cannot hide.",
+         "Trusted: the harness codec (180 lines) as the statement of the format. Whole programs are covered up to length 3 over the pool only.",
+         "DESIGN.md §4 C14"),
+ "C15": ("exploration",
+         "exhaustive enumeration of short byte strings and of all truncations/single-byte corruptions of a program pool, checked against a strict reference decoder, under three memory presentations (poison tails)",
+         "Every byte string up to length 2 (quick) / 3 (thorough) over all 256 values, every string up to length 5 / 7 over a 12-byte alphabet of opcodes, widths and letters, and every truncation and single-byte substitution of every pool program is fed to ParseAll, ToString and Vm.Run; panics in decoding, success on invalid input and dependence on bytes behind the slice end are violations.",
+         "Trusted: the strict reference decoder. NOOP, zero-length symbols and zero-width integers are not constrained. The fuzzing clause of the quantifier is outside this technique and not covered.",
+         "DESIGN.md §4 C15"),
 }
 
 NOT_YET = {}
